@@ -81,6 +81,8 @@ impl Visit for NoRedeclareVisitor<'_, '_> {
     for id in ids {
       self.declare(&id);
     }
+
+    v.visit_children_with(self);
   }
 
   fn visit_param(&mut self, p: &Param) {
@@ -89,6 +91,8 @@ impl Visit for NoRedeclareVisitor<'_, '_> {
     for id in ids {
       self.declare(&id);
     }
+
+    p.visit_children_with(self);
   }
 
   fn visit_class_prop(&mut self, p: &ClassProp) {
